@@ -38,6 +38,26 @@ def rand_text(rng):
     return '\n'.join(' '.join(rng.choice(words) for _ in range(rng.randint(1, 3))) for _ in range(rng.choice([1, 2, 2, 3, 4, 5])))
 
 
+def rand_attr(rng, k):
+    "(name, printed value | True for a boolean attribute, spelling in the abbreviation)"
+    name = rng.choice(['d%d', 'data-x%d', 'K%d', 'ns:a%d', 'a_b%d', 'v-on:e%d']) % k
+    if k == 1 and rng.random() < 0.12:
+        name = rng.choice(['CLASS', 'Class', 'ID', 'Id', 'classes', 'idx', 'className'])      # only the exact names class / id are primary
+    r = rng.random()
+    if r < 0.45:
+        v = 'v%d' % rng.randint(1, 9)
+        return (name, '"%s"' % v, '[%s=%s]' % (name, v))
+    if r < 0.6:
+        return (name, True, '[%s.]' % name)
+    if r < 0.7:
+        return (name, '""', rng.choice(['[%s]', '[%s=""]']) % name)
+    if r < 0.85:
+        v = rng.choice(['x y', 'a  b', ' p', "it's", 'a=b', 'x>y', '(z)', '[0]', '1+2', 'ü é'])
+        return (name, '"%s"' % v, '[%s="%s"]' % (name, v))
+    v = rng.choice(['v', 'a.b', 'f(1)', 'x y'])
+    return (name, '{%s}' % v, '[%s={%s}]' % (name, v))
+
+
 def gen(rng, depth=0, max_depth=3):
     nodes = []
     for _ in range(rng.randint(1, 3) if max_depth <= 4 else rng.choice([1, 1, 2])):
@@ -55,10 +75,10 @@ def gen(rng, depth=0, max_depth=3):
             if rng.random() < 0.25:
                 info['id'] = 'i%d' % rng.randint(1, 5)
             if rng.random() < 0.3:
-                info['attrs'] = [('d%d' % k, 'v%d' % rng.randint(1, 9)) for k in range(1, rng.randint(1, 2) + 1)]
+                info['attrs'] = [rand_attr(rng, k) for k in range(1, rng.choice([1, 1, 2, 2, 3, 5]) + 1)]
             ids = ['#' + info['id']] if info['id'] else []
             cls = ['.' + c for c in info['classes']]
-            n.mentions = (ids + cls if info['id_first'] else cls + ids) + ['[%s=%s]' % kv for kv in info['attrs']]
+            n.mentions = (ids + cls if info['id_first'] else cls + ids) + [a[2] for a in info['attrs']]
             if rng.random() < 0.3:
                 n.text = rng.choice(TEXTS) if rng.random() < 0.5 else rand_text(rng)
             if rng.random() < 0.2:
@@ -110,7 +130,7 @@ def header(e, syntax):
     cls = '.' + '.'.join(info['classes']) if info['classes'] else ''
     head += ids + cls if info['id_first'] else cls + ids
     if info['attrs']:
-        pairs = ['%s="%s"' % kv for kv in info['attrs']]
+        pairs = [a[0] + ('=true' if syntax == 'haml' else '') if a[1] is True else '%s=%s' % (a[0], a[1]) for a in info['attrs']]
         if syntax == 'haml':
             head += '(' + ' '.join(pairs) + ')'
         elif syntax == 'pug':
